@@ -107,8 +107,25 @@ class NadaFunction(Generic[T, R]):
         )
 
     def __call__(self, *args, **kwargs) -> R:
+        # Bind the arguments to the declared parameters, in parameter order.
+        names = [arg.name for arg in self.args]
+        if len(args) > len(names):
+            raise TypeError(
+                f"{self.function.__name__}() takes {len(names)} arguments but {len(args)} were given"
+            )
+        bound = list(args)
+        for name in names[len(args) :]:
+            if name not in kwargs:
+                raise TypeError(
+                    f"{self.function.__name__}() missing required argument: '{name}'"
+                )
+            bound.append(kwargs.pop(name))
+        if kwargs:
+            raise TypeError(
+                f"{self.function.__name__}() got unexpected keyword arguments {sorted(kwargs)}"
+            )
         return self.return_type(
-            child=NadaFunctionCall(self, args, source_ref=SourceRef.back_frame())
+            child=NadaFunctionCall(self, bound, source_ref=SourceRef.back_frame())
         )
 
 
